@@ -139,3 +139,51 @@ Proofs/TablesSound.vos Proofs/TablesSound.vok Proofs/TablesSound.required_vos: P
 Props/C12.vo Props/C12.glob Props/C12.v.beautified Props/C12.required_vo: Props/C12.v Props/Shipped.vo Spec/TablesSpec.vo Spec/Grammar.vo Gen/SpdxJson.vo Gen/Files.vo WF/JsonPartition.vo WF/FilesRegenerate.vo WF/IdsParse.vo Proofs/ExcGuard.vo Proofs/ParseGrammar.vo Proofs/MatchProof.vo Proofs/TablesSound.vo
 Props/C12.vio: Props/C12.v Props/Shipped.vio Spec/TablesSpec.vio Spec/Grammar.vio Gen/SpdxJson.vio Gen/Files.vio WF/JsonPartition.vio WF/FilesRegenerate.vio WF/IdsParse.vio Proofs/ExcGuard.vio Proofs/ParseGrammar.vio Proofs/MatchProof.vio Proofs/TablesSound.vio
 Props/C12.vos Props/C12.vok Props/C12.required_vos: Props/C12.v Props/Shipped.vos Spec/TablesSpec.vos Spec/Grammar.vos Gen/SpdxJson.vos Gen/Files.vos WF/JsonPartition.vos WF/FilesRegenerate.vos WF/IdsParse.vos Proofs/ExcGuard.vos Proofs/ParseGrammar.vos Proofs/MatchProof.vos Proofs/TablesSound.vos
+Spec/Version.vo Spec/Version.glob Spec/Version.v.beautified Spec/Version.required_vo: Spec/Version.v Model/Match.vo Spec/MatchSpec.vo Spec/WF.vo
+Spec/Version.vio: Spec/Version.v Model/Match.vio Spec/MatchSpec.vio Spec/WF.vio
+Spec/Version.vos Spec/Version.vok Spec/Version.required_vos: Spec/Version.v Model/Match.vos Spec/MatchSpec.vos Spec/WF.vos
+Proofs/VersionOrder.vo Proofs/VersionOrder.glob Proofs/VersionOrder.v.beautified Proofs/VersionOrder.required_vo: Proofs/VersionOrder.v Spec/Version.vo Proofs/BytesFacts.vo
+Proofs/VersionOrder.vio: Proofs/VersionOrder.v Spec/Version.vio Proofs/BytesFacts.vio
+Proofs/VersionOrder.vos Proofs/VersionOrder.vok Proofs/VersionOrder.required_vos: Proofs/VersionOrder.v Spec/Version.vos Proofs/BytesFacts.vos
+WF/Ranges.vo WF/Ranges.glob WF/Ranges.v.beautified WF/Ranges.required_vo: WF/Ranges.v Spec/Version.vo Gen/Tables.vo
+WF/Ranges.vio: WF/Ranges.v Spec/Version.vio Gen/Tables.vio
+WF/Ranges.vos WF/Ranges.vok WF/Ranges.required_vos: WF/Ranges.v Spec/Version.vos Gen/Tables.vos
+Proofs/RangesSound.vo Proofs/RangesSound.glob Proofs/RangesSound.v.beautified Proofs/RangesSound.required_vo: Proofs/RangesSound.v Spec/Version.vo Proofs/BytesFacts.vo Proofs/NodeInv.vo Proofs/MatchProof.vo Proofs/VersionOrder.vo
+Proofs/RangesSound.vio: Proofs/RangesSound.v Spec/Version.vio Proofs/BytesFacts.vio Proofs/NodeInv.vio Proofs/MatchProof.vio Proofs/VersionOrder.vio
+Proofs/RangesSound.vos Proofs/RangesSound.vok Proofs/RangesSound.required_vos: Proofs/RangesSound.v Spec/Version.vos Proofs/BytesFacts.vos Proofs/NodeInv.vos Proofs/MatchProof.vos Proofs/VersionOrder.vos
+Props/C11.vo Props/C11.glob Props/C11.v.beautified Props/C11.required_vo: Props/C11.v Props/Shipped.vo Spec/Version.vo WF/Ranges.vo Proofs/VersionOrder.vo Proofs/RangesSound.vo
+Props/C11.vio: Props/C11.v Props/Shipped.vio Spec/Version.vio WF/Ranges.vio Proofs/VersionOrder.vio Proofs/RangesSound.vio
+Props/C11.vos Props/C11.vok Props/C11.required_vos: Props/C11.v Props/Shipped.vos Spec/Version.vos WF/Ranges.vos Proofs/VersionOrder.vos Proofs/RangesSound.vos
+Model/ApiHist.vo Model/ApiHist.glob Model/ApiHist.v.beautified Model/ApiHist.required_vo: Model/ApiHist.v Model/Api.vo
+Model/ApiHist.vio: Model/ApiHist.v Model/Api.vio
+Model/ApiHist.vos Model/ApiHist.vok Model/ApiHist.required_vos: Model/ApiHist.v Model/Api.vos
+Model/Ticks.vo Model/Ticks.glob Model/Ticks.v.beautified Model/Ticks.required_vo: Model/Ticks.v Model/Api.vo
+Model/Ticks.vio: Model/Ticks.v Model/Api.vio
+Model/Ticks.vos Model/Ticks.vok Model/Ticks.required_vos: Model/Ticks.v Model/Api.vos
+Proofs/Purity.vo Proofs/Purity.glob Proofs/Purity.v.beautified Proofs/Purity.required_vo: Proofs/Purity.v Model/ApiHist.vo
+Proofs/Purity.vio: Proofs/Purity.v Model/ApiHist.vio
+Proofs/Purity.vos Proofs/Purity.vok Proofs/Purity.required_vos: Proofs/Purity.v Model/ApiHist.vos
+Proofs/Cost.vo Proofs/Cost.glob Proofs/Cost.v.beautified Proofs/Cost.required_vo: Proofs/Cost.v Model/Ticks.vo Spec/Lex.vo Spec/Grammar.vo Spec/Eval.vo Proofs/BytesFacts.vo Proofs/ScanRef.vo Proofs/ParseGrammar.vo Proofs/Offsets.vo
+Proofs/Cost.vio: Proofs/Cost.v Model/Ticks.vio Spec/Lex.vio Spec/Grammar.vio Spec/Eval.vio Proofs/BytesFacts.vio Proofs/ScanRef.vio Proofs/ParseGrammar.vio Proofs/Offsets.vio
+Proofs/Cost.vos Proofs/Cost.vok Proofs/Cost.required_vos: Proofs/Cost.v Model/Ticks.vos Spec/Lex.vos Spec/Grammar.vos Spec/Eval.vos Proofs/BytesFacts.vos Proofs/ScanRef.vos Proofs/ParseGrammar.vos Proofs/Offsets.vos
+Props/C13.vo Props/C13.glob Props/C13.v.beautified Props/C13.required_vo: Props/C13.v Props/Shipped.vo Model/ApiHist.vo Proofs/Purity.vo
+Props/C13.vio: Props/C13.v Props/Shipped.vio Model/ApiHist.vio Proofs/Purity.vio
+Props/C13.vos Props/C13.vok Props/C13.required_vos: Props/C13.v Props/Shipped.vos Model/ApiHist.vos Proofs/Purity.vos
+Props/C14.vo Props/C14.glob Props/C14.v.beautified Props/C14.required_vo: Props/C14.v Props/Shipped.vo Model/Ticks.vo Spec/Lex.vo Proofs/ScanRef.vo Proofs/Cost.vo Proofs/ParseGrammar.vo
+Props/C14.vio: Props/C14.v Props/Shipped.vio Model/Ticks.vio Spec/Lex.vio Proofs/ScanRef.vio Proofs/Cost.vio Proofs/ParseGrammar.vio
+Props/C14.vos Props/C14.vok Props/C14.required_vos: Props/C14.v Props/Shipped.vos Model/Ticks.vos Spec/Lex.vos Proofs/ScanRef.vos Proofs/Cost.vos Proofs/ParseGrammar.vos
+Spec/Spellings.vo Spec/Spellings.glob Spec/Spellings.v.beautified Spec/Spellings.required_vo: Spec/Spellings.v Model/Api.vo Spec/WF.vo
+Spec/Spellings.vio: Spec/Spellings.v Model/Api.vio Spec/WF.vio
+Spec/Spellings.vos Spec/Spellings.vok Spec/Spellings.required_vos: Spec/Spellings.v Model/Api.vos Spec/WF.vos
+WF/Spellings.vo WF/Spellings.glob WF/Spellings.v.beautified WF/Spellings.required_vo: WF/Spellings.v Spec/Spellings.vo Gen/Tables.vo
+WF/Spellings.vio: WF/Spellings.v Spec/Spellings.vio Gen/Tables.vio
+WF/Spellings.vos WF/Spellings.vok WF/Spellings.required_vos: WF/Spellings.v Spec/Spellings.vos Gen/Tables.vos
+Proofs/Congruence.vo Proofs/Congruence.glob Proofs/Congruence.v.beautified Proofs/Congruence.required_vo: Proofs/Congruence.v Model/Api.vo Spec/Eval.vo Spec/Spellings.vo Proofs/BytesFacts.vo Proofs/Sat.vo Proofs/MatchProof.vo
+Proofs/Congruence.vio: Proofs/Congruence.v Model/Api.vio Spec/Eval.vio Spec/Spellings.vio Proofs/BytesFacts.vio Proofs/Sat.vio Proofs/MatchProof.vio
+Proofs/Congruence.vos Proofs/Congruence.vok Proofs/Congruence.required_vos: Proofs/Congruence.v Model/Api.vos Spec/Eval.vos Spec/Spellings.vos Proofs/BytesFacts.vos Proofs/Sat.vos Proofs/MatchProof.vos
+Props/C08.vo Props/C08.glob Props/C08.v.beautified Props/C08.required_vo: Props/C08.v Props/Shipped.vo Spec/Spellings.vo WF/Spellings.vo Proofs/Congruence.vo Proofs/BytesFacts.vo Proofs/MatchProof.vo
+Props/C08.vio: Props/C08.v Props/Shipped.vio Spec/Spellings.vio WF/Spellings.vio Proofs/Congruence.vio Proofs/BytesFacts.vio Proofs/MatchProof.vio
+Props/C08.vos Props/C08.vok Props/C08.required_vos: Props/C08.v Props/Shipped.vos Spec/Spellings.vos WF/Spellings.vos Proofs/Congruence.vos Proofs/BytesFacts.vos Proofs/MatchProof.vos
+Props/C09.vo Props/C09.glob Props/C09.v.beautified Props/C09.required_vo: Props/C09.v Props/Shipped.vo Spec/Spellings.vo WF/Spellings.vo Proofs/Congruence.vo Proofs/NodeInv.vo
+Props/C09.vio: Props/C09.v Props/Shipped.vio Spec/Spellings.vio WF/Spellings.vio Proofs/Congruence.vio Proofs/NodeInv.vio
+Props/C09.vos Props/C09.vok Props/C09.required_vos: Props/C09.v Props/Shipped.vos Spec/Spellings.vos WF/Spellings.vos Proofs/Congruence.vos Proofs/NodeInv.vos
